@@ -1,5 +1,6 @@
 // govc:pkg .
 // govc:bound 16 TRIGGER WHEN predicates x 6 output lists x 3 random feeds (quick; 10 with GOVC_BOUND=thorough) of 24 rows over 3 groups; one input field whose name ends in "or" (sensor) and one camelCase field (wLoad)
+// govc:also C04 C12
 // Bounded stand-in (NOT a proof) for the part of the global window that is regular-expression based and outside the
 // contracts (rewriting of the TRIGGER WHEN predicate and its binding to aggregates): a group fires exactly at the rows where
 // the predicate holds on the rows received since it last fired, the result carries the aggregates over exactly those rows,
